@@ -18,6 +18,42 @@ CHECKS = {
              "DESIGN.md 1.3. Programs rejected by the compiler are counted, not reported.",
         design="2/C01",
     ),
+    "C03": dict(
+        category="exploration",
+        technique="exhaustive enumeration of program / macro / SSB shapes; closure invariant evaluated on every compilation result",
+        text="Every successful compilation of the bounded exhaustive families G-forms, G-prog, G-macro (ExplorerScript compiler) "
+             "and of the SsbScript spelling of every G-ssb routine set (SsbScript compiler) is checked directly for the "
+             "invariant: unique offsets, closed int jump targets in last position, no pseudo ops, equal table lengths.",
+        note="The invariant is checked on the objects compile() returns; jump-carrying kinds are those of OPS_WITH_JUMP_TO_MEM_OFFSET.",
+        design="2/C03",
+    ),
+    "C05": dict(
+        category="model_checking",
+        technique="exhaustive enumeration of acyclic macro call graphs x definition orders x file layouts; product Ref(inlined source) x Machine(compiled) explored per case",
+        text="All labelled DAGs on up to 3 (quick) / 4 (thorough) macros, all definition orders, file layouts with imported "
+             "macro files written to a scratch directory, plus 22 import-resolution layouts; the compiled routine is "
+             "compared on every path with the source-level inlining of the reference semantics; every acyclic case must compile.",
+        note="Trusted: the reference inliner in vf/refsem.py; parameter names distinct per macro.",
+        design="2/C05",
+    ),
+    "C07": dict(
+        category="exploration",
+        technique="exhaustive enumeration of SSB routine sets up to an op bound; decompile-to-SsbScript / compile round trip compared structurally",
+        text="All routine sets with <= 3 (quick) / 4 (thorough) ops in <= 2 routines over 10 op kinds with every jump target "
+             "and split point, plus a parameter-type sweep, are printed by the SsbScript decompiler and compiled back; ops, "
+             "parameters, jump targets (as routine/index) and routine tables must be equal.",
+        note="String contents with backslashes or blank-led lines belong to C04 and are not used here.",
+        design="2/C07",
+    ),
+    "C13": dict(
+        category="exploration",
+        technique="exhaustive enumeration of flat structured programs (all K-sequences of item variants); shape oracle on decompile(compile(p))",
+        text="All sequences of K items over 49 item variants (K<=2 all, K=3 reduced; thorough K=3 all, K=4 reduced) are compiled "
+             "and decompiled by the real code; the output must not be the SsbScript fallback, contain no jump statement and "
+             "print every uniquely named operation exactly once.",
+        note="menu/menu2 case headers are paired with message_SwitchMenu headers only (what the specification ties them to).",
+        design="2/C13",
+    ),
 }
 
 PENDING = {}
